@@ -109,3 +109,65 @@ def clock_steerable() -> bool:
     with mon.CLOCK.at_ns(mon.filetime_to_ns(ft)):
         blob = dpapi_ng.ncrypt_protect_secret(b"probe", "S-1-5-18", root_key_identifier=rkid, cache=cache)
     return gkdi.dec_key_identifier(cms.parse(blob)["key_identifier"])["l0"] == 530
+
+
+def hammer(rec: Recorder, tasks: t.Sequence[t.Tuple[t.Callable[[], t.Any], t.Any, t.Any]], mechanism: str, threads: int = 8, rounds: int = 4, seed: int = 0) -> None:
+    """The same pure computations from several threads at once.  tasks = (callable, expected result, witness).  Each
+    round hands every thread its own shuffled copy of the task list; the switch interval is 1 us and on odd rounds a line-level
+    yield injector perturbs the schedule inside dpapi_ng.  A result that differs from `expected` (computed beforehand,
+    single-threaded, by the reference) is a violation: functions that are correct one call at a time but share hidden
+    mutable state (module-level buffers, caches keyed too coarsely) fail exactly here."""
+    import contextlib
+    import sys
+    import threading
+
+    from vf.instruments import monitors as mon
+
+    old = sys.getswitchinterval()
+    sys.setswitchinterval(1e-6)
+    bad: t.List[tuple] = []
+    try:
+        for rnd in range(rounds):
+            barrier = threading.Barrier(threads)
+
+            def worker(ti: int, rnd=rnd) -> None:
+                r = random.Random(f"hammer:{seed}:{rnd}:{ti}")
+                order = list(range(len(tasks)))
+                r.shuffle(order)
+                barrier.wait(30)
+                for k in order:
+                    fn, want, wit = tasks[k]
+                    try:
+                        got = fn()
+                    except BaseException as e:  # noqa: BLE001
+                        got = ("raised", f"{type(e).__name__}: {e}")
+                    if got != want:
+                        bad.append((wit, got, want, ti, rnd))
+
+            inject = mon.YIELDS.active(seed=seed * 100 + rnd, every=3) if rnd % 2 else contextlib.nullcontext()
+            with inject:
+                ths = [threading.Thread(target=worker, args=(i,)) for i in range(threads)]
+                for th in ths:
+                    th.start()
+                for th in ths:
+                    th.join(300)
+                if any(th.is_alive() for th in ths):
+                    rec.inconclusive_because("watchdog: a hammer thread did not finish in 300 s")
+                    return
+            rec.count("hammer_rounds")
+            rec.count("hammer_calls", threads * len(tasks))
+    finally:
+        sys.setswitchinterval(old)
+    for wit, got, want, ti, rnd in bad[:20]:
+        rec.violation(mechanism, f"concurrent call (thread {ti}, round {rnd}) returned {str(got)[:120]} instead of {str(want)[:120]} - the single-threaded result", wit)
+
+
+SPECIAL_CODEPOINTS = "\ufeff\ufffe\uffff\ufffd\ud7ff\ue000\u0001\u00ff\u0100"
+
+
+def tricky_text(rng: random.Random, n: int) -> str:
+    """Strings a careless codec treats specially: byte-order marks (either order) in first and later positions, the last
+    BMP code points, code points whose UTF-16 bytes look like 01 00 / FF 00 / 00 01."""
+    if n <= 0:
+        return ""
+    return rng.choice("\ufeff\ufffe\ufeff\uffff") + "".join(rng.choice(SPECIAL_CODEPOINTS + "ab") for _ in range(n - 1))
